@@ -18,7 +18,7 @@ META = {
     "outside": ["real process exit status and real file system (recording stubs; twin witnesses are additionally replayed through "
                 "'python -m pdpy11' in a scratch directory by obligation cli/real-process)", "write failures (open_device stubs always succeed)",
                 "sequences of more than 3 diagnostics"],
-    "structure": "output selectors none / -o / --implicit-bin / make_*; 34 fault kinds (parse-time, compile-time, link-time, critical or not)",
+    "structure": "output selectors none / -o / -o - (standard output) / --implicit-bin / make_*; 50 fault kinds (parse-time, compile-time, link-time, critical or not, errors whose identifier is also a warning class, dangling .extern)",
     "stubs": ["argparser.parse_args -> namespace", "open (sources) -> dict", "open_device -> recorder", "latch obligations: Compiler replaced by a "
               "stub that issues the symbolic diagnostic sequence through the real reports API"],
 }
@@ -83,6 +83,10 @@ def h_latch(params, vals, ctx):
         kw["implicit_bin"] = True
     elif selector == "make+o":
         kw["outfile"] = "/w/out/o.bin"
+    elif selector == "o-stdout":
+        kw["outfile"] = "-"
+    elif selector == "o-stdout-bin":
+        kw["outfile"] = "-.bin"
     r = CH.run_cli([SRC], {SRC: "nop\n"}, lst=bool(lst), report_format=CH.FORMATS[f], warnings=CH.WARNING_SELECTIONS[w],
                    compiler_cls=_fake_compiler(sevs, "make" if selector.startswith("make") else selector), parse_fn=lambda path, text: ("AST", path), **kw)
     ctx.observe(r.exit, r.writes, r.crash)
@@ -91,10 +95,19 @@ def h_latch(params, vals, ctx):
     if r.crash is not None:
         return False
     if fail:
-        return r.exit == 1 and r.writes == []
+        return r.exit == 1 and r.writes == [] and not any(isinstance(c, (bytes, bytearray)) for c in r.stdout)
     if r.exit is not None:
         return False
     container = b"\x00\x02\x02\x00\x01\x02"
+    if selector in ("o-stdout", "o-stdout-bin"):
+        # the image goes to standard output; the listing of such a run is 'listing.lst' ('-.bin' loses its extension first)
+        want_out = [b"\x01\x02"] if selector == "o-stdout" else [container]
+        if [bytes(c) for c in r.stdout if isinstance(c, (bytes, bytearray))] != want_out:
+            return False
+        want_lst = [] if not lst else [("listing.lst", "w", "LISTING\n")]
+        return r.writes == want_lst
+    if any(isinstance(c, (bytes, bytearray)) for c in r.stdout):
+        return False
     exp = {"none": [], "o": [("/w/out/o.bin", "wb", container)], "o-raw": [("/w/out/o.dat", "wb", b"\x01\x02")],
            "implicit": [("/w/src/a.bin", "wb", container)], "make": [("/w/out/made.bin", "wb", b"MADE")],
            "o+implicit": [("/w/out/o.bin", "wb", container)], "make+implicit": [("/w/out/made.bin", "wb", b"MADE")],
@@ -206,6 +219,9 @@ def _cat():
         ("unused-symbol-undefined", "X = nosuch + {V}\n.word 1\n", lambda v: True, big),
         ("unused-symbol-div-zero-later", "X = 10 / Z\nZ = {V}\n.word 1\n", lambda v: v == 0, big),
         ("unused-symbol-range-later", "X = Y\n.byte 1\nY = 10 % Z\nZ = {V}\n", lambda v: v == 0, big),
+        ("dangling-extern", ".extern ghost\nmov #ghost + {V}, r0\n", lambda v: True, big),
+        ("dangling-extern-unused-value", ".extern ghost\nX = ghost\n.word {V}\n", lambda v: True, big),
+        ("error-in-warning-class", ".byte #{V}\n", lambda v: True, big),
         ("warn-meta-typo", "word 5 + {V}\n", lambda v: not (-65536 < v + 5 < 65536), big),
     ]
 
@@ -266,7 +282,7 @@ def h_catalogue(params, vals, ctx):
 def obligations(tier, seed):
     obs = []
     k = 0
-    for sel in ("none", "o", "o-raw", "implicit", "make", "o+implicit", "make+implicit", "make+o"):
+    for sel in ("none", "o", "o-raw", "implicit", "make", "o+implicit", "make+implicit", "make+o", "o-stdout", "o-stdout-bin"):
         for w in range(len(CH.WARNING_SELECTIONS)):
             for f in (0, 1):
                 for lst in (0, 1):
@@ -278,7 +294,7 @@ def obligations(tier, seed):
                                   vars={"S1": "int", "S2": "int", "S3": "int"}, timeout=600, per_path=120,
                                   pre="3 diagnostics of any severity (none/warning/error/critical)"))
     obs.append(Ob(oid="exit-step", harness=P + "h_exit_step", params={}, vars={"E": "int", "SW": "int", "X": "int"}, timeout=200))
-    always = {"unused-symbol-undefined", "undefined", "duplicate", "user-error", "unknown-insn", "operand-count", "parse-critical", "bad-octal", "register-value", "missing-include"}
+    always = {"unused-symbol-undefined", "undefined", "duplicate", "user-error", "unknown-insn", "operand-count", "parse-critical", "bad-octal", "register-value", "missing-include", "dangling-extern", "dangling-extern-unused-value", "error-in-warning-class"}
     for c in _cat():
         obs.append(Ob(oid=f"catalogue/{c[0]}", harness=P + "h_catalogue", params={"fault": c[0], "always": c[0] in always},
                       vars={"V": "int", "W": "int", "F": "int"}, timeout=900, per_path=120, note=c[1].replace("\n", " / ")))
